@@ -102,4 +102,23 @@ PROPS = {
         ],
         "assumptions": ["ssh keys only (gpg / sigstore verification paths are not exercised)"],
     },
+    "C06": {
+        "propfile": "PropC06.v",
+        "n": {"quick": 1200, "thorough": 30000},
+        "corr": "policy.State.FindVerifiersForPath (and tuf Delegation.Matches / fnmatch) vs find_verifiers (Walk.v)",
+        "rule": "delegation graphs of 1-4 rule files with 0-3 rules each plus the allow rule; 16 pattern forms (literal, prefix glob, "
+                "catch-all, '?', escapes, empty) over git:/file:; any terminating flags; person principals with 1-2 of 6 real keys; one "
+                "quarter 'oddities': rules named like files (cycles, incl. 'targets'), duplicate rule names (diamonds), principal ids "
+                "redefined by another file, files without allow rule, no top-level file; one directed K7 case. Each policy is queried "
+                "with 8 covering paths. State objects are hand-built (metadata JSON in DSSE envelopes). non-trivial = >=2 rule files",
+        "theorems": ["C06_terminates", "C06_sound", "C06_own_principals_refuted"],
+        "trusted": [
+            "fnmatch is modelled for ASCII patterns without '[' (flags 0); bracket expressions are outside the model (the library "
+            "panics on some of them, e.g. '[\u00e9' - observation)",
+            "set equality consulted = reached (completeness direction) is evaluated on every case by an independent recursive "
+            "descent, not yet proved",
+            "ListRules is not exercised yet (needs a loaded policy state)",
+        ],
+        "assumptions": ["Go map iteration order is irrelevant to the observables compared (principal lists are sorted)"],
+    },
 }
